@@ -74,6 +74,62 @@ def asked_with_little_stack(ctx, env):
                               f"was asked with little stack", {"links": links, "i": i, "j": j, "label": label})
 
 
+def ladders_of_declarations(ctx, env):
+    """units of the program's own declared one on top of the other, 5 to 12 compound steps deep (rung k = 2 x rung k-1 x a
+    base unit; all ratios exact in binary; every single step is seen to convert): a quantity on the top rung and the same physical quantity
+    written in base units add, subtract, compare equal and do not order - however deep the spelling-out has to go"""
+    m, rng = env.m, ctx.rng
+    Q, U = m.Quantity, m.Unit._by_name
+    bases = [U["meter"], U["second"], U["gram"]]
+    for k in range(4 if ctx.tier == "quick" else 120):
+        depth = rng.choice([5, 7, 8, 9, 12])
+        exps = [0, 0, 0]
+        i0 = rng.randrange(3)
+        rung, exps[i0], scale = bases[i0], 1, 1
+        ok = True
+        for j in range(depth):
+            i, e = rng.randrange(3), 1     # (steps with inverses run into the planner's known incompleteness about half of the time)
+            step = bases[i] ** e
+            nm = f"zqc06rung{ctx.shard}x{k}x{j}"
+            try:
+                nxt = m.Unit.define((rung * step).dimension, nm, nm)
+                nxt.equals(2 * (rung * step))
+            except Exception as e2:
+                ctx.count(f"ladders/declaration_refused/{type(e2).__name__}")
+                ok = False
+                break
+            try:
+                if Q(1, nxt).in_unit(rung * step).magnitude != 2:
+                    ok = False
+            except Exception:
+                ok = False
+            if not ok:
+                ctx.count("ladders/a_single_step_does_not_convert")
+                break
+            rung, scale = nxt, scale * 2
+            exps[i] += e
+        if not ok or not any(exps):
+            continue
+        plain = bases[0] ** exps[0] * bases[1] ** exps[1] * bases[2] ** exps[2]
+        a, b = Q(5, rung), Q(5 * scale, plain)
+        ctx.count("evaluations")
+        ctx.count("ladders/compared")
+        ctx.distinct(("ladder", depth, tuple(exps)), True)
+        case = {"depth": depth, "exponents": exps, "top": str(rung), "plain": str(plain)}
+        for label, ask, want in (("a == b", lambda: a == b, True), ("b == a", lambda: b == a, True), ("a != b", lambda: a != b, False), ("a < b", lambda: a < b, False),
+                                 ("b > a", lambda: b > a, False), ("a <= b", lambda: a <= b, True), ("(a + b) in plain units", lambda: (a + b).in_unit(plain).magnitude, 10 * scale),
+                                 ("(b + a) in plain units", lambda: (b + a).magnitude, 10 * scale), ("a - b", lambda: (a - b).magnitude, 0), ("b - a", lambda: (b - a).magnitude, 0),
+                                 ("sorted", lambda: len(sorted([a, b, Q(1, plain)])), 3)):
+            try:
+                got = ask()
+            except Exception as e2:
+                got = e2
+            ctx.count("ladders/questions")
+            if isinstance(got, Exception) or got != want:
+                ctx.violation(f"C06:ladder-of-declarations:{label}", f"5 x (rung {depth} of a ladder of declarations, each rung twice the one below times a base unit) against the "
+                              f"same quantity in base units, {5 * scale} {plain}: {label} gives {got!r}, the declarations say {want!r}", case)
+
+
 def corrected_equivalences(ctx, env):
     """a unit of the user's own whose size is stated, used, and then stated again with a corrected number: from then on
     arithmetic and comparison with it must give one physical answer whatever unit the other operand is written in
@@ -307,6 +363,7 @@ def run(ctx):
         # equality of re-expressions of one value (tie side: must not be *ordered* inconsistently)
     corrected_equivalences(ctx, env)
     asked_with_little_stack(ctx, env)
+    ladders_of_declarations(ctx, env)
     ctx.require("operations/add", 100)
     ctx.require("operations/mul", 100)
     ctx.require("comparisons_away_from_ties", 100)
